@@ -84,6 +84,22 @@ func (e *Env) Enabled(op Op) bool {
 	return false
 }
 
+// tight reports whether a bounded file is so full that a flush or commit may
+// legitimately fail for lack of space (the library does not always tag that
+// failure as OutOfMemory: tryCommitChanges drops the cause of a failed
+// flush). With more room than this an error is a violation.
+func (e *Env) tight() bool {
+	if e.Cfg.MaxPages == 0 || e.F == nil {
+		return false
+	}
+	s := e.F.VerifSnapshot()
+	w := 0
+	if e.T != nil {
+		w = len(e.T.Writes)
+	}
+	return int(e.Avail()+s.MetaAvail) < w+8
+}
+
 // Avail is the number of pages a data allocation can still obtain, computed
 // from the hook snapshot (bounded files only).
 func (e *Env) Avail() uint {
@@ -414,7 +430,7 @@ func (e *Env) Apply(op Op) {
 			return
 		}
 		if err != nil {
-			if !IsOOM(err) {
+			if !IsOOM(err) && !e.tight() {
 				e.violate("error/Flush", "Page.Flush of %d failed: %v", id, err)
 			}
 			e.obs("flush=%s", ErrKind(err))
@@ -429,7 +445,7 @@ func (e *Env) Apply(op Op) {
 			return
 		}
 		if err != nil {
-			if !IsOOM(err) {
+			if !IsOOM(err) && !e.tight() {
 				e.violate("error/Flush", "Tx.Flush failed: %v", err)
 			}
 			e.obs("flushtx=%s", ErrKind(err))
@@ -517,6 +533,7 @@ func (e *Env) CommitModel() State {
 // or out-of-space).
 func (e *Env) Commit() {
 	next := e.CommitModel()
+	tight := e.tight()
 	e.Disk.Mark("commit-begin", e.LastTxid+1)
 	var err error
 	if pn := Try(func() { err = e.Tx.Commit() }); pn != "" {
@@ -526,8 +543,10 @@ func (e *Env) Commit() {
 	}
 	if err != nil {
 		e.Disk.Mark("commit-fail", e.LastTxid+1)
-		if !IsOOM(err) {
-			e.violate("error/Commit", "Commit failed without any injected fault: %v", err)
+		if !IsOOM(err) && !tight {
+			e.violate("error/Commit", "Commit failed without any injected fault and with space left: %v", err)
+		} else if e.Cfg.MaxPages == 0 {
+			e.violate("error/Commit", "Commit reported out of space on an unbounded file: %v", err)
 		}
 		e.obs("commit=%s", ErrKind(err))
 		e.Tx, e.T = nil, nil
@@ -644,4 +663,12 @@ func (e *Env) CloseFile() {
 	}
 	Try(func() { e.F.Close() })
 	e.F = nil
+}
+
+// WritePage writes one visible page by id (probes).
+func (e *Env) WritePage(id uint64, mode int) {
+	if e.T == nil || e.Dead || e.T.Flushed[id] {
+		return
+	}
+	e.doWrite(id, mode)
 }
